@@ -228,7 +228,7 @@ func interpretable(fn *ssa.Function) bool {
 	switch p.Pkg.Path() {
 	case "slices", "maps", "errors", "cmp", "iter":
 		return true
-	case "strings", "unicode", "unicode/utf8", "sort", "bytes", "path", "strconv":
+	case "strings", "unicode", "unicode/utf8", "sort", "bytes", "path", "strconv", "io/fs", "time", "path/filepath", "math/bits", "regexp/syntax", "fmt", "os", "io":
 		// pure Go library code without a model (for instance introduced by a refactoring of the code under check) is
 		// interpreted from its SSA form like the repository's own code; what it needs beyond the executor's reach
 		// (assembly, unsafe) ends the path as unsupported as before
